@@ -33,9 +33,11 @@ DATATYPES = {
 }
 for _n in range(8):
     DATATYPES["zcsim.simdt.conv_%d" % _n] = (["v1", "plain text", "Z"], "!bad")
+    DATATYPES["zcsim.simdt.Conv_%d" % _n] = (["v1", "plain text", "Z"], "!bad")
 del _n
 
-REJECTING = [d for d, (_v, bad) in DATATYPES.items() if bad is not None]
+REJECTING = [d for d, (_v, bad) in DATATYPES.items()
+             if bad is not None and ".Conv_" not in d]
 STD_REJECTING = [d for d in REJECTING if not d.startswith("zcsim.")]
 
 KEYTYPES = ["basic-key", "basic-key", "basic-key", "identifier",
@@ -177,7 +179,7 @@ def gen_items(rng, c, o, ir, concrete, abstracts, top=False, allow_wild=True,
               inherited=(), hyphen_ok=True):
     items = []
     nkeys = rng.randint(0 if not top else 1, 4)
-    dts = list(DATATYPES)
+    dts = [d for d in DATATYPES if ".Conv_" not in d]
     if o["std_only"] or not o["callbacks"]:
         dts = [d for d in dts if not d.startswith("zcsim.")]
     have_wild = not allow_wild
